@@ -561,6 +561,17 @@ Record mon := Mon {
 Definition reach (a b : status) : bool :=
   status_eqb a b || valid_trans a b || existsb (fun m => valid_trans a m && valid_trans m b) all_status.
 
+(* the transitions the PROPERTY allows (independent of the code's matrix): used by the monitor *)
+Definition spec_trans (a b : status) : bool :=
+  match a, b with
+  | CREATED, STARTED | CREATED, CANCELED | CREATED, EXPIRED => true
+  | STARTED, SUCCESS | STARTED, CANCELED | STARTED, REPLACED | STARTED, TIMEOUT => true
+  | _, _ => false
+  end.
+Definition spec_reach (a b : status) : bool :=
+  status_eqb a b || spec_trans a b || existsb (fun m => spec_trans a m && spec_trans m b) all_status.
+Definition spec_end (s : status) : bool := match s with CREATED | STARTED => false | _ => true end.
+
 Definition status_name (s : status) : string :=
   match s with CREATED => "CREATED" | STARTED => "STARTED" | SUCCESS => "SUCCESS" | CANCELED => "CANCELED"
              | REPLACED => "REPLACED" | EXPIRED => "EXPIRED" | TIMEOUT => "TIMEOUT" end.
@@ -582,7 +593,7 @@ Definition monitor_step (m : mon) (e : ev) (o : obs) : mon * option string :=
                                    | None => Some "C09:unknown-operator-running" end) (b_running o)) in
   let v_path :=
     first_some (map (fun x => match alist_get (b_status o) (fst x) with
-                              | Some now => if reach (snd x) now then None
+                              | Some now => if spec_reach (snd x) now then None
                                             else Some (sapp "C09:status-path:" (sapp (status_name (snd x)) (sapp "->" (status_name now))))
                               | None => Some "C09:operator-vanished" end) (prev_status m)) in
   let v_left :=
@@ -590,12 +601,12 @@ Definition monitor_step (m : mon) (e : ev) (o : obs) : mon * option string :=
       match alist_get (b_running o) (fst x) with
       | Some id => if id =? snd x then None else
                      match alist_get (b_status o) (snd x) with
-                     | Some st => if is_end_status st then None else Some (sapp "C09:left-running-set-in-status:" (status_name st))
+                     | Some st => if spec_end st then None else Some (sapp "C09:left-running-set-in-status:" (status_name st))
                      | None => None end
       | None =>
           match alist_get (b_status o) (snd x) with
           | Some st =>
-              if negb (is_end_status st) then Some (sapp "C09:left-running-set-in-status:" (status_name st))
+              if negb (spec_end st) then Some (sapp "C09:left-running-set-in-status:" (status_name st))
               else match alist_get (b_query o) (fst x) with
                    | Some (qid, qst) =>
                        (* another operator of the region may have been buried later in the same event *)
